@@ -65,3 +65,20 @@ Example C04_subcommand_example :
   option_map (observe_values (all_decls ex_scall))
     (match pipeline_sub ex_scall with Ok t => Some t | _ => None end) = Some (final_values_sub ex_scall).
 Proof. vm_compute. repeat split; reflexivity. Qed.
+
+(* ---- findings of the subcommand level: the statement `every well-formed call with a subcommand ends with the
+   documented fold` (sub_precedence_statement, Proofs/C04Props.v) is FALSE of the faithful model pipeline_sub ---- *)
+(* class 3: a variable of the subcommand loses against an earlier parent-level source that sets the key in its NAME: section *)
+Theorem C04_subcommand_variable_shadowed_refuted : exists sc, scall_class sc = 3%N /\ ~ sub_precedence_statement sc.
+Proof. exact subenv_shadowed_refuted. Qed.
+Print Assumptions C04_subcommand_variable_shadowed_refuted.
+
+(* class 5: "key+" in the NAME: section of a parent-level --cfg document extends the parent's list of that name *)
+Theorem C04_section_append_refuted : exists sc, scall_class sc = 5%N /\ ~ sub_precedence_statement sc.
+Proof. exact section_append_refuted. Qed.
+Print Assumptions C04_section_append_refuted.
+
+(* class 4: a default config file without a NAME: section is rejected *)
+Theorem C04_default_config_without_section_refuted : exists sc, scall_class sc = 4%N /\ ~ sub_precedence_statement sc.
+Proof. exact dcf_without_section_refuted. Qed.
+Print Assumptions C04_default_config_without_section_refuted.
